@@ -257,9 +257,20 @@ def build_attrs_template(env, case):
     return src, ctx
 
 
-def run_attrs_case(env, rec, case):
+class _Quiet:
+    """Recorder stand-in for re-running the history of a replayed case."""
+
+    def __getattr__(self, name):
+        return lambda *a, **k: None
+
+
+def run_attrs_case(env, rec, case, history=None):
     src, ctx = build_attrs_template(env, case)
     exp = expected_attrs(env, case)
+    if history:
+        # a wrong result may depend on what the process rendered before (a value-keyed memo inside the formatter): the
+        # replay file carries the preceding cases of the shard so that the replay starts from the same history
+        case = dict(case, history=list(history))
     try:
         out = env.template(src).render(env.Context(ctx))
     except Exception as e:  # noqa: BLE001
@@ -398,9 +409,13 @@ def run_shard(spec, rec):
     if spec["kind"] == "attrs":
         rec.require("attribute-strings-parsed")
         rng = random.Random(f"{spec['seed']}-c13-{spec['idx']}")
+        import collections
+
+        hist = collections.deque(maxlen=400)
         for i in range(spec["n"]):
             case = sanitize_attrs_case(gen_attrs_case(rng))
-            run_attrs_case(env, rec, case)
+            run_attrs_case(env, rec, case, hist)
+            hist.append(case)
             names = [k for k in (case["defaults"] or {})] + [k for k in (case["attrs"] or {})] + [k for k, _, _ in case["kws"]]
             vals = [v for d in (case["defaults"], case["attrs"]) if d for v in d.values()] + [v for _, v, _ in case["kws"]]
             overlap = len(set(names)) != len(names)
@@ -445,7 +460,9 @@ def replay(case, rec):
     rec.case(("replay", 1))
     rec.case(("replay", 2))
     if case["kind"] == "attrs":
-        run_attrs_case(env, rec, case)
+        for h in case.get("history") or []:
+            run_attrs_case(env, _Quiet(), h)
+        run_attrs_case(env, rec, {k: v for k, v in case.items() if k != "history"})
     elif case["kind"] == "slot":
         run_slot_case(env, rec, case)
     else:
